@@ -227,6 +227,12 @@ def run(ctx):
         import rule as _Rm
         _c15.matchers(_Rm.View(ctx, {"T1": "N8", "T2": "N8", "T3": "N8"}), bindings, only=('asefile::cel::CelContent::parse',))
 
+    # cel chunks in any order: the frame's cels are visited by slot (seed C07-t walked them in arrival order) and a cel's record goes to
+    # the cel it follows (seed C07-s attached it to the last slot of the row)
+    import rule as _Rn9
+    render.order(_Rn9.View(ctx, {'K2': 'N9'}))
+    _c10.run(_Rn9.View(ctx, {k_: 'N9' for k_ in ('S1', 'S2', 'S3', 'S4', 'S5', 'S6', 'S7', 'S8')}))
+
     # ---------- N9
     render.duplicate_cel(ctx, rule='N9')
     render.cel_rows_grow_only(ctx, rule='N9')
